@@ -478,6 +478,15 @@ def check_no_stray_refs(cl, dirnode, dc, F, cfgdesc, limit=400):
     return n
 
 # ------------------------------------------------------------------ model comparison
+def check_cases_sep(name, header, exprs, shard, timeout):
+    """like vlib.coq_check_cases but one `Eval vm_compute` per case: elaborating one list literal that holds all the
+    (large) case terms costs far more than evaluating them.  -> (failing indices, error logs)"""
+    vals, errs = coq_eval_values(name, header, exprs, shard=shard, timeout=timeout)
+    fails = [i for i, v in enumerate(vals) if v is not None and not re.match(r'= true\s*:', v)]
+    elogs = [{'log': e} for e in errs]
+    if any(v is None for v in vals) and not elogs: elogs.append({'log': 'no value for some cases'})
+    return fails, elogs
+
 def coq_req(rec):
     return 'mk_req %d %d %d %s' % (rec['fh'], rec['size'], rec['off'], 'true' if rec['plus'] else 'false')
 
@@ -707,7 +716,7 @@ def run_check(tier, seed):
             big = g in headers and len(headers[g].oracle) > 1000
             per = (max(3, (len(idx) + 1) // 2) if big else max(3, (len(idx) + 3) // 4)) if g != 'small' else max(20, (len(idx) + 7) // 8)
             t1 = time.time()
-            fails, errs = coq_check_cases('c16_' + g, hdr, [exprs[i][1] for i in idx], shard=per, timeout=900)
+            fails, errs = check_cases_sep('c16_' + g, hdr, [exprs[i][1] for i in idx], shard=per, timeout=900)
             log('C16:   %s: %d histories %.1fs' % (g, len(idx), time.time() - t1))
             return g, [idx[j] for j in fails], errs
         with ThreadPoolExecutor(max_workers=4) as ex:
